@@ -383,27 +383,36 @@ Fixpoint zip_fields (names : list string) (keys : list string) (tys : list ty)
   | _, _, _, _, _, _, _, _ => []
   end.
 
+(** the skipped fields are the remaining entries of field_names / field_defaults / field_maps;
+    a skipped field always has an initial value (its default), else rustc rejects the expansion *)
 Fixpoint zip_skipped (names : list string) (defaults : list fdefault) (maps : list (option N))
-  : list sfield :=
+  : option (list sfield) :=
   match names, defaults, maps with
-  | n :: names', d :: defaults', m :: maps' => mkSF n d m :: zip_skipped names' defaults' maps'
-  | _, _, _ => []
+  | n :: names', FDValue o :: defaults', m :: maps' =>
+    match zip_skipped names' defaults' maps' with
+    | Some r => Some (mkSF n o m :: r)
+    | None => None
+    end
+  | _ :: _, FDMissing :: _, _ :: _ => None
+  | _, _, _ => Some []
   end.
 
 Definition deny_of (d : option (option N)) : deny :=
   match d with None => DenyNo | Some None => DenyDefault | Some (Some fn) => DenyFn fn end.
 
 (** the struct body generated from the vectors: key arms pair the first [length keys] entries *)
-Definition cstruct_of (v : vectors) (d : option (option N)) : cstruct ty :=
+Definition cstruct_of (v : vectors) (d : option (option N)) : dres (cstruct ty) :=
   let n := List.length (v_keys v) in
-  mkCS (zip_fields (v_names v) (v_keys v) (v_tys v) (v_errs v) (v_froms v) (v_defaults v)
-                   (v_maps v) (v_missing v))
-       (zip_skipped (skipn n (v_names v)) (skipn n (v_defaults v)) (skipn n (v_maps v)))
-       (deny_of d).
+  match zip_skipped (skipn n (v_names v)) (skipn n (v_defaults v)) (skipn n (v_maps v)) with
+  | Some sk =>
+    Accept (mkCS (zip_fields (v_names v) (v_keys v) (v_tys v) (v_errs v) (v_froms v) (v_defaults v)
+                             (v_maps v) (v_missing v)) sk (deny_of d))
+  | None => Invalid
+  end.
 
 Definition named_struct (fs : list (field tpos)) (ra : option rename_all) (d : option (option N))
   : dres (cstruct ty) :=
-  dbind (named_vectors fs ra) (fun v => Accept (cstruct_of v d)).
+  dbind (named_vectors fs ra) (fun v => cstruct_of v d).
 
 (** ** [DerivedTypeInfo::parse] + [derive_deserialize] *)
 
